@@ -1,6 +1,7 @@
 import Driver.Util
 import ZvbiModel.Ev.Model
 import ZvbiModel.Evl.Model
+import ZvbiModel.Ev.Enable
 /-!
 # Driver for component `ev` (C11): line protocol over `ZvbiModel.Ev.Model`
 
@@ -13,6 +14,7 @@ remove <fn>                            vbi_event_handler_remove
 send <type>                            vbi_send_event
 ttx <pgno>                             one Teletext page through vbi_decode_teletext, then vbi_is_cached
 consts                                 event bits (cross-check of translate/gen_ev.py)
+enab <old> <new>                       vbi_event_enable (vbi, new) with vbi->event_mask = old on a decoder full of sentinels (7 = untouched)
 ```
 Second list (src/event.c, sub-component `evl`), same conventions, calls in scripts `add:f:u:m`,
 `add!:f:u:m`, `rm:f:u`, `rmrec:id`, `rmev:m`, `send:t`:
@@ -185,8 +187,14 @@ def step (d : DState) (ws : List String) : DState × String :=
   | some r => r
   | none =>
   let base := d.s.trace.length
-  let opNames := ["script", "reg", "reg!", "unreg", "add", "add!", "remove", "send", "ttx", "consts"]
+  let opNames := ["script", "reg", "reg!", "unreg", "add", "add!", "remove", "send", "ttx", "consts", "enab"]
   match ws with
+  | ["enab", o, n] =>
+    match p32 o, p32 n with
+    | some o, some n =>
+      let (e, em) := Enable.enable Enable.planted o n
+      (d, s!"ok em={em} ttx={e .ttx} cc={e .caption} net={e .network} cyc={e .cniCycle} ann={e .cniAnnounced} trg={e .triggers} pi0={e .progInfo0} pi1={e .progInfo1} fut0={e .future0} fut1={e .future1} asp={e .aspectSource} pid={e .vpsPid} rest={e .rest}")
+    | _, _ => (d, "rej parse")
   | ["consts"] =>
     (d, s!"ok close={VBI_EVENT_CLOSE} ttx={VBI_EVENT_TTX_PAGE} caption={VBI_EVENT_CAPTION} network={VBI_EVENT_NETWORK} trigger={VBI_EVENT_TRIGGER} aspect={VBI_EVENT_ASPECT} proginfo={VBI_EVENT_PROG_INFO} netid={VBI_EVENT_NETWORK_ID} localtime={VBI_EVENT_LOCAL_TIME} progid={VBI_EVENT_PROG_ID}")
   | ["script", f, u, sc] =>
